@@ -49,6 +49,14 @@ check('C03', 'model_checking',
       TB, 'explicit-state BFS over the implementation; invariant checked after every transition',
       'E1', 'DESIGN.md §4 C03')
 
+check('C06', 'model_checking',
+      'In every reachable shape (C and Python, all families and kinds): setstate(getstate), pickle round '
+      'trip for protocols 0..5 loaded with the C classes and with the pure-Python classes, copy, deepcopy; '
+      'byte equality of the C and Python pickles of the same history; every alphabet operation applied to a '
+      'reloaded copy compared with the reference model, followed by _check() and the independent walk.',
+      TB, 'explicit-state BFS over the implementation; round-trip and cross-implementation oracle per state',
+      'E1', 'DESIGN.md §4 C06')
+
 PENDING = ['C%02d' % i for i in range(1, 20)]
 
 
